@@ -212,3 +212,105 @@ Example C17_length_14_cm :
   | None => false
   end = true.
 Proof. vm_compute. reflexivity. Qed.
+
+(* ---------------------------------------------------------------- the methods regenerated from the source *)
+(* Units/Gen_Methods.v is regenerated on every run by translator/py2gallina_units.py from the text of
+   src/pydsol/core/units.py of the tree under test (Python `ast`, fail-closed): Quantity.__new__ /
+   __init__, displayvalue, si, unit, as_unit, _val, __neg__ / __abs__ / __pos__, __add__ / __sub__, the six
+   comparisons and __str__ (and the SI class).  Units/GenAgree.v proves every generated definition equal
+   to the hand-written function the theorems above are about, for all arguments ([conc] is the object of
+   the generated code a value of the model stands for; a constructor is given a number or a str, not a
+   quantity).  The main theorems are restated over the generated definitions below.  A change of the
+   source that changes the meaning of a method (e.g. a _val that rebuilds the value through the unit
+   factor) makes GenAgree.v fail to compile: the check then reports the broken tie. *)
+From PV Require Import Units.Gen_Methods Units.GenAgree.
+
+Theorem C17_generated_model_is_the_proved_model : forall N,
+  (forall c v unit, is_quantity N v = false ->
+     gen_Quantity_construct N gen_module c (conc v) unit = rmap conc (mk N gen_module c v unit)) /\
+  (forall c a u, gen_Quantity_displayvalue N gen_module (GNamed c a u) = displayvalue N gen_module (VNamed c a u)) /\
+  (forall c a u nu, gen_Quantity_as_unit N gen_module (GNamed c a u) nu = rmap conc (as_unit N gen_module (VNamed c a u) nu)) /\
+  (forall c a x u, gen_Quantity__val N gen_module (GNamed c a u) x = rmap conc (q_val N gen_module c x u)) /\
+  (forall c a u, gen_Quantity___neg__ N gen_module (GNamed c a u) = rmap conc (q_val N gen_module c (fneg N a) u)) /\
+  (forall c a u, gen_Quantity___abs__ N gen_module (GNamed c a u) = rmap conc (q_val N gen_module c (fabs N a) u)) /\
+  (forall v : pyval N, gen_Quantity___pos__ N gen_module (conc v) = Val (conc v)) /\
+  (forall c a u, gen_Quantity___str__ N gen_module (GNamed c a u) =
+     match displayvalue N gen_module (VNamed c a u) with
+     | Raise e => Raise e
+     | Val d => rmap (fun s => [PNum d; PStr " "; PStr s]) (str_suffix N gen_module (VNamed c a u))
+     end) /\
+  (forall v u, is_quantity N v = false -> gen_SI_construct N gen_module (conc v) u = rmap conc (mk_si N v u)) /\
+  (forall op x, gen_unop_eval N gen_module op x = unop_eval N gen_module op x) /\
+  (forall op c a u y, match op with Add | Sub | Cmp _ => True | _ => False end ->
+     gen_binop_eval N gen_module op (VNamed c a u) y = binop_eval N gen_module op (VNamed c a u) y).
+Proof. intros N. exact (conversion_generated_agree N gen_module). Qed.
+Print Assumptions C17_generated_model_is_the_proved_model.
+
+(* the generated __new__ + __init__: SI value = value * factor(unit), unit = the chosen unit *)
+Theorem C17_generated_construction_stores_value_times_factor :
+  forall N c q u f n d x,
+    get_class gen_classes c = Some q -> glookup u (qc_units q) = Some (GFac f n d) ->
+    gen_Quantity_construct N gen_module c (GNum x) (Some u) = Val (GNamed c (fmul N x (ffac N f n d)) u).
+Proof. intros N. exact (gen_construction_stores_value_times_factor N gen_module). Qed.
+Print Assumptions C17_generated_construction_stores_value_times_factor.
+
+Theorem C17_generated_construction_refuses_unknown_unit_and_non_numbers :
+  forall N c q u (x : pyval N), get_class gen_classes c = Some q -> is_quantity N x = false ->
+    (glookup u (qc_units q) = None -> gen_Quantity_construct N gen_module c (conc x) (Some u) = Raise ValueError) /\
+    ((forall k, x <> VNum k) -> gen_Quantity_construct N gen_module c (conc x) (Some u) = Raise ValueError).
+Proof. intros N. exact (gen_construction_refuses N gen_module). Qed.
+Print Assumptions C17_generated_construction_refuses_unknown_unit_and_non_numbers.
+
+Theorem C17_generated_display_value_is_the_original_value :
+  forall N, num_laws N -> forall c q u f n d x,
+    get_class gen_classes c = Some q -> glookup u (qc_units q) = Some (GFac f n d) -> n <> 0%Z ->
+    gen_Quantity_displayvalue N gen_module (GNamed c (fmul N x (ffac N f n d)) u) = Val x.
+Proof. intros N L. exact (gen_displayvalue_of_construct N gen_module L). Qed.
+Print Assumptions C17_generated_display_value_is_the_original_value.
+
+(* the generated as_unit keeps the SI value bit for bit and only replaces the unit *)
+Theorem C17_generated_reexpression_preserves_si :
+  forall N, num_laws N -> forall c q a u u', get_class gen_classes c = Some q ->
+    (gmem u' (qc_units q) = true -> gen_Quantity_as_unit N gen_module (GNamed c a u) u' = Val (GNamed c a u')) /\
+    (gmem u' (qc_units q) = false -> gen_Quantity_as_unit N gen_module (GNamed c a u) u' = Raise ValueError).
+Proof. intros N L. exact (gen_as_unit_preserves_si N gen_module L gen_base_factor_one17). Qed.
+Print Assumptions C17_generated_reexpression_preserves_si.
+
+Theorem C17_generated_ops_depend_only_on_si_values :
+  forall N, num_laws N -> forall c a u b v q, get_class gen_classes c = Some q ->
+    gen_binop_eval N gen_module Add (VNamed c a u) (VNamed c b v) = Val (OVal (VNamed c (fadd N a b) u)) /\
+    gen_binop_eval N gen_module Sub (VNamed c a u) (VNamed c b v) = Val (OVal (VNamed c (fsub N a b) u)) /\
+    (forall o, gen_binop_eval N gen_module (Cmp o) (VNamed c a u) (VNamed c b v) = Val (OBool (cmp_nums N o a b))).
+Proof. intros N L. exact (gen_same_type_named N gen_module L gen_base_factor_one17). Qed.
+Print Assumptions C17_generated_ops_depend_only_on_si_values.
+
+Theorem C17_generated_unary_ops_on_si_value_keep_unit :
+  forall N, num_laws N -> forall c q a u, get_class gen_classes c = Some q ->
+    gen_unop_eval N gen_module Neg (VNamed c a u) = Val (OVal (VNamed c (fneg N a) u)) /\
+    gen_unop_eval N gen_module Abs (VNamed c a u) = Val (OVal (VNamed c (fabs N a) u)) /\
+    gen_unop_eval N gen_module Pos (VNamed c a u) = Val (OVal (VNamed c a u)).
+Proof. intros N L. exact (gen_unary_named N gen_module L gen_base_factor_one17). Qed.
+Print Assumptions C17_generated_unary_ops_on_si_value_keep_unit.
+
+(* the generated __str__ is total on every declared unit: str(displayvalue), a blank, the display spelling *)
+Theorem C17_generated_str_total :
+  forall N, num_laws N -> forall c q a u f n d,
+    get_class gen_classes c = Some q -> glookup u (qc_units q) = Some (GFac f n d) -> n <> 0%Z ->
+    exists dv s, gen_Quantity___str__ N gen_module (GNamed c a u) = Val [PNum dv; PStr " "; PStr s] /\ display_of q u = GStr s.
+Proof. intros N L c q a u f n d. exact (gen_str_total N gen_module L c q a u f n d gen_display_units_ok). Qed.
+Print Assumptions C17_generated_str_total.
+
+(* Length(14, 'cm') built by the generated constructor, in exact rationals *)
+Example C17_generated_length_14_cm :
+  match find_class gen_classes "Length" with
+  | Some le =>
+      match gen_Quantity_construct qc_ops gen_module le (@GNum qc_ops (Qcanon.Q2Qc (QArith_base.Qmake 14 1))) (Some "cm") with
+      | Val g => match gen_Quantity_displayvalue qc_ops gen_module g, gen_Quantity_unit qc_ops gen_module g with
+                 | Val dv, Val u => Qcanon.Qc_eq_bool dv (Qcanon.Q2Qc (QArith_base.Qmake 14 1)) && String.eqb u "cm"
+                 | _, _ => false
+                 end
+      | Raise _ => false
+      end
+  | None => false
+  end = true.
+Proof. vm_compute. reflexivity. Qed.
